@@ -26,6 +26,24 @@
 // records) × EVERY distinct delivery order.  Oracle = reference tally from the
 // delivery history (first vote per distinct entitled sender, equivocators
 // weigh 0, invalid votes weigh 0, quorum = floor(0.685·T) restated here).
+//
+// Reduction: nothing delivered after the CommitEvent can change it, and two
+// orders that agree up to the delivery at which the reference commits are the
+// same execution up to there.  Unless a scenario is marked Full, an order is
+// executed up to that delivery and orders sharing the prefix run once (the
+// evidence counts both the orders and the executions).  If the implementation
+// commits earlier or not at that delivery the oracle reports it all the same.
+//
+// Tiers: quick = fixtures a, b, b-, c at the honest round index, outsider node
+// and member nodes (own precommit signed by the real Voter after a real prevote
+// quorum), one extra message; thorough adds full orders (post-commit
+// deliveries), the step-4 timer as an interleaved event, a BLS signature over
+// another payload, pairs of extras, round index 2 after the node went through
+// index 1 (re-votes; late votes of index 1), and the certificate round
+// (2·ACoCHTFrequency: every interleaving of precommits and certificate votes).
+//
+// Environment: VERIF_C03_ONLY=none skips part 1; VERIF_C03_P2_ONLY=<cfg>/<me>
+// keeps the matching scenarios; VERIF_C03_P2_DRY=1 prints the plan sizes.
 package c03
 
 import (
@@ -87,14 +105,15 @@ func p2InstallHooks(r *mc.Run) {
 
 // p2Spec names one scenario (replay files carry it).
 type p2Spec struct {
-	Cfg    string `json:"cfg"`    // fixture configuration of checks/c01: a | b | b- | c
-	Cert   bool   `json:"cert"`   // certificate round (2·ACoCHTFrequency)
-	RI     uint32 `json:"ri"`     // round index (0 = the fixture's honest round index)
-	Me     string `json:"me"`     // "out" = the node's key is not in the validator set; otherwise the member that runs the node
-	Extras int    `json:"extras"` // extra messages per case (0..2)
-	Timer  bool   `json:"timer"`  // the step-4 timer is one of the interleaved events
-	Stale  bool   `json:"stale"`  // the node went through the previous round index first; votes of that index are in the alphabet
-	Full   bool   `json:"full"`   // every order is executed to its end; otherwise an order is executed up to the delivery at which the reference commits, and orders sharing that prefix (identical executions up to the commit) run once
+	Cfg    string `json:"cfg"`      // fixture configuration of checks/c01: a | b | b- | c
+	Cert   bool   `json:"cert"`     // certificate round (2·ACoCHTFrequency)
+	RI     uint32 `json:"ri"`       // round index (0 = the fixture's honest round index)
+	Me     string `json:"me"`       // "out" = the node's key is not in the validator set; otherwise the member that runs the node
+	Extras int    `json:"extras"`   // extra messages per case (0..2)
+	Timer  bool   `json:"timer"`    // the step-4 timer is one of the interleaved events
+	Stale  bool   `json:"stale"`    // the node went through the previous round index first; votes of that index are in the alphabet
+	Max    int    `json:"max_msgs"` // certificate scenarios: largest number of interleaved votes (0 = no limit)
+	Full   bool   `json:"full"`     // every order is executed to its end; otherwise an order is executed up to the delivery at which the reference commits, and orders sharing that prefix (identical executions up to the commit) run once
 }
 
 func (s p2Spec) name() string {
@@ -105,6 +124,15 @@ func (s p2Spec) name() string {
 	n += fmt.Sprintf("/ri%d/%s", s.RI, s.Me)
 	if s.Stale {
 		n += "/stale"
+	}
+	if s.Extras > 0 {
+		n += fmt.Sprintf("/x%d", s.Extras)
+	}
+	if s.Timer {
+		n += "+timer"
+	}
+	if s.Full {
+		n += "/full"
 	}
 	return n
 }
@@ -551,13 +579,16 @@ func (s *p2Scn) generate(defects []string) {
 		if s.spec.Extras < 2 {
 			continue
 		}
+		pairable := func(e p2Extra) bool {
+			return e.variant == "equivocator" || e.variant == "other-block voter" || e.variant == "duplicate"
+		}
 		for i := 0; i < len(ex); i++ {
 			for j := i; j < len(ex); j++ {
 				if j == i && ex[i].variant != "duplicate" {
 					continue // the same extra twice is only meaningful as a triple delivery
 				}
-				if ex[i].variant == "step-4 timer" && ex[j].variant == "step-4 timer" {
-					continue
+				if !pairable(ex[i]) || !pairable(ex[j]) {
+					continue // pairs: two votes for the competing block (two equivocators), equivocator + duplicate, two duplicates
 				}
 				all := append(append(append([]string{}, base...), ex[i].msgs...), ex[j].msgs...)
 				v := ex[i].variant + " + " + ex[j].variant
@@ -581,9 +612,12 @@ func (s *p2Scn) generateCert() {
 					base = append(base, "CT:"+m.Name+":A")
 				}
 			}
+			if s.spec.Max > 0 && len(base) > s.spec.Max {
+				continue
+			}
 			mask := pm | cm<<8
 			permutations(base, func(o []string) { s.addCase(mask, "cert", o) })
-			if s.spec.Extras >= 1 && len(base) <= 5 {
+			if s.spec.Extras >= 1 && len(base) <= 3 {
 				for _, m := range s.voters {
 					for _, k := range []string{"PC", "CT"} {
 						v := "cert + other-block " + k
@@ -1292,21 +1326,30 @@ func p2Plans(quick bool) (specs []p2Spec, defects []string) {
 		return
 	}
 	defects = []string{"claim", "wrongsig"}
-	for _, cfg := range []string{"a", "b", "b-", "c"} {
-		specs = append(specs, p2Spec{Cfg: cfg, Me: "out", Extras: 2, Timer: true})
-		specs = append(specs, p2Spec{Cfg: cfg, Me: "out", RI: 2, Extras: 1, Stale: true})
+	// (most valuable first: the internal deadline cuts the tail)
+	specs = []p2Spec{
+		// every order to its end (deliveries after the commit included), the step-4 timer interleaved
+		{Cfg: "b", Me: "out", Extras: 1, Timer: true, Full: true},
+		{Cfg: "c", Me: "out", Extras: 1, Timer: true, Full: true},
+		{Cfg: "a", Me: "out", Extras: 1, Timer: true},
+		{Cfg: "b-", Me: "out", Extras: 1, Timer: true},
 	}
-	for _, cfg := range []string{"a", "b", "b-", "c"} {
-		for i := 0; i < 4; i++ {
-			specs = append(specs, p2Spec{Cfg: cfg, Me: fmt.Sprintf("%s%d", strings.TrimSuffix(cfg, "-"), i), Extras: 2, Timer: true})
-		}
+	for _, me := range []string{"a0", "a1", "b0", "b1", "b2", "c0"} {
+		specs = append(specs, p2Spec{Cfg: me[:1], Me: me, Extras: 1, Timer: true, Full: true})
 	}
-	for _, cfg := range []string{"a", "b"} {
-		specs = append(specs, p2Spec{Cfg: cfg, Cert: true, Me: "out", Extras: 0})
-		for i := 0; i < 2; i++ {
-			specs = append(specs, p2Spec{Cfg: cfg, Cert: true, Me: fmt.Sprintf("%s%d", cfg, i), Extras: 1})
-		}
-	}
+	specs = append(specs,
+		p2Spec{Cfg: "b-", Me: "b0", Extras: 1, Timer: true, Full: true},
+		p2Spec{Cfg: "b-", Me: "b1", Extras: 1, Timer: true, Full: true},
+		// certificate round (2·ACoCHTFrequency): precommits and certificate votes of the other members, every interleaving
+		p2Spec{Cfg: "b", Cert: true, Me: "b0", Extras: 0},
+		p2Spec{Cfg: "b", Cert: true, Me: "b1", Extras: 1}, // + one vote (precommit or certificate) for the competing block where at most 3 votes interleave
+		p2Spec{Cfg: "a", Cert: true, Me: "a0", Extras: 0},
+		p2Spec{Cfg: "b", Cert: true, Me: "out", Extras: 0, Max: 4},
+		// round index 2 after the node went through index 1: re-votes, and votes of index 1 arriving late
+		p2Spec{Cfg: "b", Me: "out", RI: 2, Extras: 1, Stale: true, Full: true},
+		// pairs of extra messages (two equivocators, equivocator + duplicate, two duplicates), up to the commit
+		p2Spec{Cfg: "b", Me: "out", Extras: 2},
+	)
 	return
 }
 
@@ -1315,7 +1358,8 @@ func part2(r *mc.Run) {
 	p2InstallHooks(r)
 	params.InitNetworkId(params.NetworkIdForTestCase)
 	c01.Quiet()
-	r.Rule += " || PART 2 (real crypto): per fixture of checks/c01 (validator sets a, b [whale alone = quorum], b- [whale one seat short], c [+ house/offline/zero-stake records]) a real node without goroutines (Server+SortitionManager+Proposal+Voter+MessageHandler wired as StartMining does, real credential verification against the committed look-back set) receives real signed wire messages through MessageHandler.HandleMsg: every subset of senders precommitting block A × one extra message (vote of any sender for the competing block B = equivocation or other-block vote; duplicate; over-claimed weight; votes of non-entitled records) × every distinct delivery order; node = outsider key, or a member whose own precommit is produced by the real Voter after a real prevote quorum; oracle = reference tally of the delivery history (commit exactly when the delivered valid distinct non-equivocating weight reaches floor(0.685·T), attached set exact and verbatim, header packed by c01.PackCommit and by the real Server.commit lists exactly those votes and is accepted by VerifyHeader, VerifySeal and VerifySideChainHeader); distinct = (scenario, subset, variant, order)"
+	r.Rule += " || PART 2 (real crypto): per fixture of checks/c01 (validator sets a, b [whale alone = quorum], b- [whale one seat short], c [+ house/offline/zero-stake records]) a real node without goroutines (Server+SortitionManager+Proposal+Voter+MessageHandler wired as StartMining does, real credential verification against the committed look-back set) receives real signed wire messages through MessageHandler.HandleMsg: every subset of senders precommitting block A × one extra message (vote of any sender for the competing block B = equivocation or other-block vote; duplicate; over-claimed weight; votes of non-entitled records; thorough: + BLS signature over another payload, the step-4 timer, late votes of the previous round index, pairs of extras, certificate round with every interleaving of precommits and certificate votes) × every distinct delivery order; node = outsider key, or a member whose own precommit is produced by the real Voter after a real prevote quorum; an order is executed up to the delivery at which the reference commits and orders sharing that prefix (identical executions up to the commit) run once (scenarios marked /full: every order to its end); oracle = reference tally of the delivery history (commit exactly when the delivered valid distinct non-equivocating weight reaches floor(0.685·T), attached set exact and verbatim, header packed by c01.PackCommit and by the real Server.commit lists exactly those votes and is accepted by VerifyHeader, VerifySeal and VerifySideChainHeader); distinct = (scenario, subset, variant, executed order)"
+	r.Assume("part 2: credentials are real (VRF sortition proofs, BLS vote signatures and ECDSA envelopes produced with the fixture's keys and verified by the production code against the fixture's committed look-back validator set)")
 	r.Assume("part 2: the harness plays the event mux synchronously (one handler call = one atomic step); the competing block B is a second proposal of the same proposer (equivocating proposer); message timestamps are fixed")
 	specs, defects := p2Plans(r.Quick())
 	if only := os.Getenv("VERIF_C03_P2_ONLY"); only != "" {
@@ -1382,6 +1426,18 @@ func part2(r *mc.Run) {
 			"sender_precommit_seats": strings.Join(seats, " "), "non_entitled_senders": len(s.others), "cases": len(s.cases)}
 	}
 	r.Count("p2 scenarios", int64(len(scnInfo)))
+	if os.Getenv("VERIF_C03_P2_DRY") != "" {
+		var ks []string
+		for k := range scnInfo {
+			ks = append(ks, k)
+		}
+		sort.Strings(ks)
+		for _, k := range ks {
+			m := scnInfo[k].(map[string]interface{})
+			fmt.Printf("p2 dry: %-22s orders %7v executions %7v\n", k, m["delivery_orders"], m["cases"])
+		}
+		return
+	}
 	var sampleMu sync.Mutex
 	var samples []interface{}
 	var done int64
